@@ -92,7 +92,18 @@ def gen_schema(ctx, depth):
             return {"const": rng.choice(vals)}
         return {"enum": rng.sample(vals, rng.randint(1, 4))}
     if r < 0.55:
-        return {"type": rng.sample(["string", "null", "integer", "boolean", "number"], 2)}
+        # a type union carrying the keywords of its member types (an intersection under an alternation)
+        ts = rng.sample(["string", "null", "integer", "boolean", "number"], 2)
+        s = {"type": ts}
+        if "integer" in ts or "number" in ts:
+            n = gen_number_schema(ctx, "integer" in ts)
+            n.pop("type")
+            if rng.random() < 0.5:
+                n["multipleOf"] = rng.choice([3, 7, 4])
+            s.update(n)
+        if "string" in ts and rng.random() < 0.6:
+            s["maxLength"] = rng.choice([1, 2, 4])
+        return s
     if r < 0.68:
         s = {"type": "array"}
         if rng.random() < 0.35:
